@@ -175,3 +175,24 @@ package lower
 //@   loop 1 step [struct-align] maxAlign >= align && maxAlign >= prev(maxAlign) && (maxAlign == align || maxAlign == prev(maxAlign))
 //@   at (*Lowerer).registerNamedType assert [span] is(arg2, ir.StructType) && (pow2(maxAlign) && offset <= 0x0FFFFFFF ==> (arg2.(ir.StructType).Span & (maxAlign - 1)) == 0 && arg2.(ir.StructType).Span >= offset && arg2.(ir.StructType).Span - offset < maxAlign)
 //@   at (*Lowerer).registerNamedType assert [members] arg2.(ir.StructType).Members == members
+//
+// ---- swizzles (C10, C11, C01) --------------------------------------------------------------
+//
+// A swizzle has 2..4 letters, all from one of xyzw / rgba, each selecting a
+// component the vector has; anything else is an error (never a panic), and on
+// success the result size is the number of letters and every selected component
+// is in range.
+//
+//@ func (*Lowerer).swizzlePattern
+//@   mode bv
+//@   tags C10 C11
+//@   ensures [length-checked] (len(member) < 2 || len(member) > 4) ==> result2 != nil
+//@   ensures [size] result2 == nil ==> int(result0) == len(member)
+//@   ensures [components-in-range] result2 == nil ==> (forall i int :: 0 <= i && i < len(member) ==> uint8(result1[i]) < uint8(vecSize))
+//@   nopanic
+//@   terminates
+//@   loop 1 invariant [idx] 1 <= i && i <= len(member)
+//@   loop 1 decreases len(member) - i
+//@   loop 2 invariant [idx] 0 <= i && i <= len(member)
+//@   loop 2 invariant [done] forall j int :: 0 <= j && j < i ==> uint8(pattern[j]) < uint8(vecSize)
+//@   loop 2 decreases len(member) - i
